@@ -110,8 +110,16 @@ def st_eval(draw):
     Y = [[draw(st.floats(-5, 5)) for _ in range(m)] for _ in range(K)]
     Q = []
     for _ in range(draw(st.integers(1, 8))):
-        mode = draw(st.sampled_from(["on", "near", "free"]))
-        if mode == "on":
+        mode = draw(st.sampled_from(["on", "near", "free", "midpoint"] if K >= 2 else ["on", "near", "free"]))
+        if mode == "midpoint":
+            # just past the midpoint between two designs (offset 1e-3 .. 1e-7 of their distance): the nearer one must win,
+            # whichever index it has
+            i = draw(st.integers(0, K - 1))
+            j = draw(st.integers(0, K - 2))
+            j = j if j < i else j + 1
+            t = draw(st.sampled_from([1, -1])) * draw(st.sampled_from([1e-3, 1e-5, 1e-6, 1e-7]))
+            Q.append([(a + b) / 2 + t * (b - a) for a, b in zip(X[i], X[j])])
+        elif mode == "on":
             Q.append(list(X[draw(st.integers(0, K - 1))]))
         elif mode == "near":
             b = X[draw(st.integers(0, K - 1))]
